@@ -322,6 +322,8 @@ static void load_rules(const char *path) {
         }
         char *p = line + off; size_t L = strlen(p);
         while (L && (p[L - 1] == '\n' || p[L - 1] == ' ')) p[--L] = 0;
+        /* the path field may contain \n and \\ escapes (file names with newlines) */
+        { char *w = p; for (char *q = p; *q; q++) { if (*q == '\\' && q[1] == 'n') { *w++ = '\n'; q++; } else if (*q == '\\' && q[1] == '\\') { *w++ = '\\'; q++; } else *w++ = *q; } *w = 0; L = strlen(p); }
         snprintf(ru->path, sizeof ru->path, "%s", L ? p : "*");
         if (!strcmp(act, "fail")) ru->act = A_FAIL; else if (!strcmp(act, "ret")) ru->act = A_RET;
         else if (!strcmp(act, "clamp")) ru->act = A_CLAMP; else if (!strcmp(act, "kill")) ru->act = A_KILL;
